@@ -66,6 +66,17 @@ register('C20',
          'Coq proof (permutation length) + adversarial-key vm_compute correspondence against utils.count_versions',
          'DESIGN.md §7 C20')
 
+register('C15',
+         'Coq theorems over every version table: (a) the changeset of the i-th version equals the column-wise difference to the '
+         '(i-1)-th version (to nothing for the first) for both fetchers, and contains exactly the differing columns mapped to '
+         '(old,new); (c) under the validity chain the flag back-fill switches on exactly the flags of the columns that differ '
+         'from the positional predecessor (all flags for a first version), NULL being an ordinary value, and changes nothing '
+         'else. Both models are compared with version.changeset and schema.update_property_mod_flags on random tables every '
+         'run. Clause (b), flags written by the object path, is decided with the unit-of-work model (see C11/C15b in DESIGN).',
+         COMMON_NOTE + 'Python != on ints/None is modelled by val_eqb.',
+         'Coq proof (list reasoning on top of the C08 position lemmas) + vm_compute correspondence against version.changeset and schema.update_property_mod_flags',
+         'DESIGN.md §7 C15')
+
 ALL = ['C%02d' % i for i in range(1, 21)]
 
 
